@@ -73,6 +73,19 @@ def harness(ctx, args, timeout=3000):
     p = subprocess.run([ctx.harness] + [str(a) for a in args], stdout=subprocess.PIPE, stderr=subprocess.PIPE,
                        timeout=timeout, universal_newlines=True, cwd=ctx.scratch)
     if p.returncode != 0:
+        # Several fixtures share the driver's process. A Go runtime "fatal error" (concurrent map writes on state the
+        # code under test shares between its instances) kills all of them at once: run the driver again with one
+        # worker, where the same state is written by one fixture at a time and what it then does wrong can be observed.
+        sargs = [str(a) for a in args]
+        if "fatal error:" in p.stderr and "-workers" in sargs and sargs[sargs.index("-workers") + 1] != "1" and not getattr(ctx, "_retried_serial", False):
+            ctx._retried_serial = True
+            ctx.say("driver %s died with a Go runtime fatal error (%s); running it again with one worker" % (
+                args[0], p.stderr[p.stderr.index("fatal error:"):][:80].splitlines()[0]))
+            sargs[sargs.index("-workers") + 1] = "1"
+            try:
+                return harness(ctx, sargs, timeout=timeout * 4)
+            finally:
+                ctx._retried_serial = False
         raise Machinery("harness %s failed (%d): %s" % (args[0], p.returncode, p.stderr[-3000:]))
     try:
         return json.loads(p.stdout.strip().splitlines()[-1])
